@@ -1,3 +1,5 @@
+//go:build !skip_c06
+
 package main
 
 import (
@@ -8,22 +10,22 @@ import (
 	"verifharness/pkg/emit"
 )
 
-func init() { register("C06", runC06) }
+func init() { register("C06", c06Run) }
 
 type c06In struct {
-	Cfg   bCfg     `json:"cfg"`
-	Subj  bSubject `json:"subject"`
-	Steps []bHop   `json:"steps"`
+	Cfg   c06Cfg     `json:"cfg"`
+	Subj  c06Subject `json:"subject"`
+	Steps []c06Hop   `json:"steps"`
 }
 
-// runC06Case runs one history on the real code and emits the case.
-func runC06Case(w *emit.Writer, in c06In, origin string) {
-	bw := newBWorld(in.Cfg, in.Subj)
+// c06RunCase runs one history on the real code and emits the case.
+func c06RunCase(w *emit.Writer, in c06In, origin string) {
+	bw := c06NewWorld(in.Cfg, in.Subj)
 	e := &emit.Enc{}
-	encCfg(e, in.Cfg)
+	c06EncCfg(e, in.Cfg)
 	bw.encSubject(e)
 	e.Len(len(in.Steps))
-	var obsAll []bObs
+	var obsAll []c06Obs
 	class := "history"
 	issuances := 0
 	opsSeen := map[string]bool{}
@@ -36,11 +38,11 @@ func runC06Case(w *emit.Writer, in c06In, origin string) {
 		}
 		o := bw.runHop(*h, nil, true)
 		if in.Cfg.Rnd {
-			h.Orc.Perm = completePerm(in.Cfg.N, o)
+			h.Orc.Perm = c06CompletePerm(in.Cfg.N, o)
 		}
-		encHop(e, *h)
-		encOracle(e, h.Orc)
-		encObs(e, o)
+		c06EncHop(e, *h)
+		c06EncOracle(e, h.Orc)
+		c06EncObs(e, o)
 		obsAll = append(obsAll, o)
 		for _, ev := range o.logEnc {
 			if ev[0] == 1 && ev[3] == 1 {
@@ -72,8 +74,8 @@ func runC06Case(w *emit.Writer, in c06In, origin string) {
 // kcRevokedWithOtherBundle: looks at the raw storage the way the harness monitor does: is the
 // bundle a load would pick (newest NotBefore, first issuer on ties) revoked for key compromise
 // while another issuer's directory holds a complete bundle too?
-func (w *bWorld) kcRevokedWithOtherBundle() bool {
-	var o bObs
+func (w *c06World) kcRevokedWithOtherBundle() bool {
+	var o c06Obs
 	w.snapshot(&o)
 	files := map[int]int{}
 	nb := map[int]int64{}
@@ -102,72 +104,72 @@ func (w *bWorld) kcRevokedWithOtherBundle() bool {
 	return ok && kc
 }
 
-func up(nb int64, val int) bOutcome { return bOutcome{Up: true, NB: nb, Val: val} }
+func c06Up(nb int64, val int) c06Outcome { return c06Outcome{Up: true, NB: nb, Val: val} }
 
-var down = bOutcome{}
+var c06Down = c06Outcome{}
 
-func orc(outs ...bOutcome) bOracle { return bOracle{Out: outs} }
+func c06Orc(outs ...c06Outcome) c06Oracle { return c06Oracle{Out: outs} }
 
 // c06Corpus: the witnesses of DESIGN §5.C06 and hand-picked histories; run first on every run.
 func c06Corpus() []c06In {
-	dns := bSubjects[0]
+	dns := c06Subjects[0]
 	var cs []c06In
-	// the reproduced defect: issuers [A(down), B], reuse: obtain -> B/K; forced renew -> A/K;
+	// the reproduced defect: issuers [A(c06Down), B], reuse: obtain -> B/K; forced renew -> A/K;
 	// A's certificate revoked for key compromise; manage => nil error, zero issuances, B's old
 	// certificate with the same key K keeps being served.
-	cs = append(cs, c06In{Cfg: bCfg{N: 2, Reuse: true, KeyType: "p256"}, Subj: dns, Steps: []bHop{
-		{Op: "manage", Orc: orc(down, up(10, 0))},
-		{Op: "renew", Force: true, Orc: orc(up(20, 0), up(20, 0))},
+	cs = append(cs, c06In{Cfg: c06Cfg{N: 2, Reuse: true, KeyType: "p256"}, Subj: dns, Steps: []c06Hop{
+		{Op: "manage", Orc: c06Orc(c06Down, c06Up(10, 0))},
+		{Op: "renew", Force: true, Orc: c06Orc(c06Up(20, 0), c06Up(20, 0))},
 		{Op: "revenv", I: 0, KC: true},
-		{Op: "manage", Orc: orc(up(30, 0), up(30, 0))},
-		{Op: "manage", Orc: orc(up(40, 0), up(40, 0))},
+		{Op: "manage", Orc: c06Orc(c06Up(30, 0), c06Up(30, 0))},
+		{Op: "manage", Orc: c06Orc(c06Up(40, 0), c06Up(40, 0))},
 	}})
 	// same history, one issuer: the key is quarantined and a fresh one is used
-	cs = append(cs, c06In{Cfg: bCfg{N: 1, Reuse: true, KeyType: "p256"}, Subj: dns, Steps: []bHop{
-		{Op: "manage", Orc: orc(up(10, 0))},
-		{Op: "renew", Force: true, Orc: orc(up(20, 0))},
+	cs = append(cs, c06In{Cfg: c06Cfg{N: 1, Reuse: true, KeyType: "p256"}, Subj: dns, Steps: []c06Hop{
+		{Op: "manage", Orc: c06Orc(c06Up(10, 0))},
+		{Op: "renew", Force: true, Orc: c06Orc(c06Up(20, 0))},
 		{Op: "revenv", I: 0, KC: true},
-		{Op: "manage", Orc: orc(up(30, 0))},
-		{Op: "manage", Orc: orc(up(40, 0))},
+		{Op: "manage", Orc: c06Orc(c06Up(30, 0))},
+		{Op: "manage", Orc: c06Orc(c06Up(40, 0))},
 	}})
 	// same history without key reuse
-	cs = append(cs, c06In{Cfg: bCfg{N: 2, Reuse: false, KeyType: "p256"}, Subj: dns, Steps: []bHop{
-		{Op: "manage", Orc: orc(down, up(10, 0))},
-		{Op: "renew", Force: true, Orc: orc(up(20, 0), up(20, 0))},
+	cs = append(cs, c06In{Cfg: c06Cfg{N: 2, Reuse: false, KeyType: "p256"}, Subj: dns, Steps: []c06Hop{
+		{Op: "manage", Orc: c06Orc(c06Down, c06Up(10, 0))},
+		{Op: "renew", Force: true, Orc: c06Orc(c06Up(20, 0), c06Up(20, 0))},
 		{Op: "revenv", I: 0, KC: true},
-		{Op: "manage", Orc: orc(up(30, 0), up(30, 0))},
+		{Op: "manage", Orc: c06Orc(c06Up(30, 0), c06Up(30, 0))},
 	}})
 	// revoked, not for key compromise: forced renewal keeps the key with reuse
-	cs = append(cs, c06In{Cfg: bCfg{N: 2, Reuse: true, KeyType: "ed25519"}, Subj: dns, Steps: []bHop{
-		{Op: "manage", Orc: orc(up(10, 0), up(10, 0))},
+	cs = append(cs, c06In{Cfg: c06Cfg{N: 2, Reuse: true, KeyType: "ed25519"}, Subj: dns, Steps: []c06Hop{
+		{Op: "manage", Orc: c06Orc(c06Up(10, 0), c06Up(10, 0))},
 		{Op: "revenv", I: 0, KC: false},
-		{Op: "manage", Orc: orc(down, up(20, 0))},
-		{Op: "manage", Orc: orc(down, down)},
+		{Op: "manage", Orc: c06Orc(c06Down, c06Up(20, 0))},
+		{Op: "manage", Orc: c06Orc(c06Down, c06Down)},
 	}})
 	// newest-of-issuers: B newer than A, tie, and A newer
 	for _, nbs := range [][2]int64{{10, 20}, {20, 20}, {30, 20}} {
-		cs = append(cs, c06In{Cfg: bCfg{N: 2, Reuse: false, KeyType: "p256"}, Subj: dns, Steps: []bHop{
-			{Op: "obtain", Orc: orc(down, up(nbs[1], 0))},
-			{Op: "renew", Force: true, Orc: orc(up(nbs[0], 0), down)},
-			{Op: "manage", Orc: orc(down, down)},
+		cs = append(cs, c06In{Cfg: c06Cfg{N: 2, Reuse: false, KeyType: "p256"}, Subj: dns, Steps: []c06Hop{
+			{Op: "obtain", Orc: c06Orc(c06Down, c06Up(nbs[1], 0))},
+			{Op: "renew", Force: true, Orc: c06Orc(c06Up(nbs[0], 0), c06Down)},
+			{Op: "manage", Orc: c06Orc(c06Down, c06Down)},
 		}})
 	}
 	// due certificate gets renewed by manage; expired one too; three issuers
-	cs = append(cs, c06In{Cfg: bCfg{N: 3, Reuse: true, KeyType: "p384"}, Subj: dns, Steps: []bHop{
-		{Op: "manage", Orc: orc(down, down, up(5, 1))},
-		{Op: "manage", Orc: orc(down, up(6, 2), up(6, 0))},
-		{Op: "manage", Orc: orc(up(7, 0), down, down)},
+	cs = append(cs, c06In{Cfg: c06Cfg{N: 3, Reuse: true, KeyType: "p384"}, Subj: dns, Steps: []c06Hop{
+		{Op: "manage", Orc: c06Orc(c06Down, c06Down, c06Up(5, 1))},
+		{Op: "manage", Orc: c06Orc(c06Down, c06Up(6, 2), c06Up(6, 0))},
+		{Op: "manage", Orc: c06Orc(c06Up(7, 0), c06Down, c06Down)},
 		{Op: "revapi"},
-		{Op: "manage", Orc: orc(up(8, 0), down, down)},
+		{Op: "manage", Orc: c06Orc(c06Up(8, 0), c06Down, c06Down)},
 	}})
 	// every subject kind through manage, renew, manage
-	for i, s := range bSubjects {
-		cs = append(cs, c06In{Cfg: bCfg{N: 1 + i%2, Reuse: i%3 == 0, KeyType: []string{"p256", "ed25519", "p384", "rsa2048"}[i%4]}, Subj: s, Steps: []bHop{
-			{Op: "manage", Orc: orc(up(10, 1), up(10, 1))},
-			{Op: "obtain", Orc: orc(up(15, 0), up(15, 0))},
-			{Op: "manage", Orc: orc(up(20, 0), up(20, 0))},
-			{Op: "renew", Force: true, Orc: orc(down, up(30, 0))},
-			{Op: "manage", Orc: orc(down, down)},
+	for i, s := range c06Subjects {
+		cs = append(cs, c06In{Cfg: c06Cfg{N: 1 + i%2, Reuse: i%3 == 0, KeyType: []string{"p256", "ed25519", "p384", "rsa2048"}[i%4]}, Subj: s, Steps: []c06Hop{
+			{Op: "manage", Orc: c06Orc(c06Up(10, 1), c06Up(10, 1))},
+			{Op: "obtain", Orc: c06Orc(c06Up(15, 0), c06Up(15, 0))},
+			{Op: "manage", Orc: c06Orc(c06Up(20, 0), c06Up(20, 0))},
+			{Op: "renew", Force: true, Orc: c06Orc(c06Down, c06Up(30, 0))},
+			{Op: "manage", Orc: c06Orc(c06Down, c06Down)},
 		}})
 	}
 	return cs
@@ -179,14 +181,14 @@ func c06Random(r *rand.Rand, heavyKeys bool) c06In {
 	if heavyKeys && r.Intn(45) == 0 {
 		kt = "rsa2048"
 	}
-	in := c06In{Cfg: bCfg{N: n, Reuse: r.Intn(2) == 0, Rnd: r.Intn(4) == 0, KeyType: kt}, Subj: bSubjects[r.Intn(len(bSubjects))]}
+	in := c06In{Cfg: c06Cfg{N: n, Reuse: r.Intn(2) == 0, Rnd: r.Intn(4) == 0, KeyType: kt}, Subj: c06Subjects[r.Intn(len(c06Subjects))]}
 	if r.Intn(3) == 0 {
-		in.Subj = bSubjects[0]
+		in.Subj = c06Subjects[0]
 	}
 	clock := int64(10)
 	steps := 3 + r.Intn(6)
 	for s := 0; s < steps; s++ {
-		var h bHop
+		var h c06Hop
 		switch x := r.Intn(100); {
 		case x < 40:
 			h.Op = "manage"
@@ -215,7 +217,7 @@ func c06Random(r *rand.Rand, heavyKeys bool) c06In {
 		}
 		for i := 0; i < n; i++ {
 			if r.Intn(10) < 3 {
-				h.Orc.Out = append(h.Orc.Out, down)
+				h.Orc.Out = append(h.Orc.Out, c06Down)
 				continue
 			}
 			val := 0
@@ -232,18 +234,18 @@ func c06Random(r *rand.Rand, heavyKeys bool) c06In {
 					nb = 0
 				}
 			}
-			h.Orc.Out = append(h.Orc.Out, up(nb, val))
+			h.Orc.Out = append(h.Orc.Out, c06Up(nb, val))
 		}
 		in.Steps = append(in.Steps, h)
 	}
 	return in
 }
 
-func runC06(tier string, seed int64, outdir string, replay string) error {
+func c06Run(tier string, seed int64, outdir string, replay string) error {
 	w := emit.NewWriter(outdir, "C06", tier, seed)
 	defer w.Close()
 	w.Meta.Rule = "a history counts as non-trivial when it has at least two steps and at least one certificate was really issued and stored; distinct = distinct (config, subject, steps with oracle answers)"
-	w.Meta.Oracles = append(w.Meta.Oracles, pemCodecOracle([]string{"ed25519", "p256", "p384", "rsa2048"}))
+	w.Meta.Oracles = append(w.Meta.Oracles, c06PemCodecOracle([]string{"ed25519", "p256", "p384", "rsa2048"}))
 	if replay != "" {
 		rc, err := loadReplay(replay)
 		if err != nil {
@@ -257,11 +259,11 @@ func runC06(tier string, seed int64, outdir string, replay string) error {
 			in.Steps[i].Orc.Perm = nil
 		}
 		// UseFirstRandomIssuer draws a fresh shuffle: repeat until the recorded failure class shows (bounded)
-		runC06Case(w, in, "replay")
+		c06RunCase(w, in, "replay")
 		return nil
 	}
 	for _, in := range c06Corpus() {
-		runC06Case(w, in, "corpus")
+		c06RunCase(w, in, "corpus")
 	}
 	n := 700
 	if tier == "thorough" {
@@ -269,7 +271,7 @@ func runC06(tier string, seed int64, outdir string, replay string) error {
 	}
 	r := rand.New(rand.NewSource(seed))
 	for i := 0; i < n; i++ {
-		runC06Case(w, c06Random(r, true), "random")
+		c06RunCase(w, c06Random(r, true), "random")
 	}
 	canonNote := emit.OracleCheck{Name: "canonical names: Safe(idna(name)) = Safe(name) for every canonical subject used (model's [canon])", OK: len(w.Meta.Notes) == 0}
 	if !canonNote.OK {
